@@ -14,10 +14,19 @@ def reg(pat, fn): REG.append((re.compile(pat), fn, False))
 
 def lookup(it, callee, base):
     stripped = re.sub(r'::<[^<>]*(?:<[^<>]*(?:<[^<>]*>[^<>]*)*>[^<>]*)*>$', '', callee)
+    if stripped == callee:
+        gt = generic_tail(callee)
+        if gt: stripped = callee[:gt[0]]
+    cands = [callee, stripped]
+    # the same inherent method is printed under core::, std:: or alloc:: depending on where the impl block lives
+    m = re.match(r'(core|std|alloc)::(str|slice|num|char|option|result|iter)::', callee)
+    if m:
+        for alt in ('core', 'std', 'alloc'):
+            if alt != m.group(1): cands += [alt + callee[len(m.group(1)):], alt + stripped[len(m.group(1)):]]
     for lst in (it.models, REG):
         for pat, fn, wc in lst:
-            if pat.fullmatch(callee) or pat.fullmatch(stripped):
-                return ('modelc' if wc else 'model', fn)
+            for c in cands:
+                if pat.fullmatch(c): return ('modelc' if wc else 'model', fn)
     return None
 
 def B(it, e): return it.ctx.branch(e) if not isinstance(e, bool) else e
@@ -445,9 +454,32 @@ def m_from_residual(it, callee, r):
     if target_e == src_e: return ERR(e)
     return ERR(it.call('<%s as std::convert::From<%s>>::from' % (target_e, src_e), [e]))
 
-@model(r'<(.*) as std::ops::(Fn|FnMut|FnOnce)<\(.*\)>>::call(_mut|_once)?')
-def m_fn_call(it, f, args):
-    return it.call_closure(deref_all(f) if isinstance(f, Ref) else f, *list(args))
+@model(r'<(.*) as std::ops::(Fn|FnMut|FnOnce)<\(.*\)>>::call(_mut|_once)?', True)
+def m_fn_call(it, callee, f, args):
+    fv = deref_all(f) if isinstance(f, Ref) else f
+    if fv is None:
+        # a closure without captures is zero-sized: MIR never assigns its local, the type names the body
+        m = re.match(r'<&*(?:mut )?(\{closure@[^}]*\}) as ', callee)
+        if m and m.group(1) in it.closures: fv = Closure(it.closures[m.group(1)], [])
+        else: raise Unsupported('call through an uninitialised callable: ' + callee)
+    return it.call_closure(fv, *list(args))
+# ---------------------------------------------------------------- atomics (sequentially consistent cells: the executor never runs two things at once)
+class AtomicCell:
+    def __init__(self, v): self.v = v
+_AT = r'std::sync::atomic::(?:Atomic::<\w+>|Atomic(?:Usize|Isize|U8|U16|U32|U64|I8|I16|I32|I64|Bool))'
+reg(r'<std::sync::atomic::(?:Atomic<\w+>|Atomic\w+) as std::default::Default>::default', lambda it: AtomicCell(0))
+reg(_AT + r'::new', lambda it, v: AtomicCell(v))
+reg(_AT + r'::load', lambda it, a, o: deref_all(a).v)
+reg(_AT + r'::into_inner', lambda it, a: deref_all(a).v)
+def _at_store(it, a, v, o): deref_all(a).v = v; return []
+reg(_AT + r'::store', _at_store)
+def _at_rmw(fn):
+    def m(it, a, v, o):
+        c = deref_all(a); old = c.v; c.v = fn(old, v); return old
+    return m
+reg(_AT + r'::fetch_add', _at_rmw(lambda x, y: x + y))
+reg(_AT + r'::fetch_sub', _at_rmw(lambda x, y: x - y))
+reg(_AT + r'::swap', _at_rmw(lambda x, y: y))
 # ---------------------------------------------------------------- Box / Arc / mem
 reg(r'std::boxed::Box::<.*>::new', lambda it, v: BoxPtr(Box_(v)))
 reg(r'std::boxed::Box::<.*>::new_uninit', lambda it: BoxPtr(Box_(Uninit())))
@@ -1076,9 +1108,28 @@ reg(_IT + r'take', lambda it, c, n: PyIter(rest(materialize(it, c))[:n]))
 reg(_IT + r'step_by', lambda it, c, n: PyIter(rest(materialize(it, c))[::n]))
 reg(_IT + r'peekable', lambda it, c: materialize(it, c))
 reg(_IT + r'by_ref', lambda it, c: c)
-reg(_IT + r'(copied|cloned)', lambda it, c: PyIter([it.clone(deref_all(x)) for x in rest(materialize(it, c))]))
+def _copy_item(it, x):
+    # Iterator<Item = &T>::copied/cloned gives T: exactly one reference level is removed (T may itself be a reference)
+    if isinstance(x, Ref):
+        v = x.get()
+        return v if isinstance(v, Ref) else it.clone(v)
+    return it.clone(x)
+reg(_IT + r'(copied|cloned)', lambda it, c: PyIter([_copy_item(it, x) for x in rest(materialize(it, c))]))
 reg(_IT + r'chain::<.*>', lambda it, a, b: PyIter(rest(materialize(it, a)) + rest(materialize(it, b))))
-reg(_IT + r'zip::<.*>', lambda it, a, b: PyIter([[x, y] for x, y in zip(rest(materialize(it, a)), rest(materialize(it, m_into_iter(it, b))))]))
+def _finite(it, x, n):
+    """the first n items of a possibly unbounded range (start..)"""
+    d = deref_all(x)
+    if isinstance(d, Adt) and len(d.fields) == 1 and not isinstance(d, PyIter): return [d.fields[0] + k for k in range(n)]
+    return None
+def m_zip(it, a, b):
+    bi = m_into_iter(it, b)
+    fa, fb = _finite(it, a, 0), _finite(it, bi, 0)
+    if fb is not None and fa is None:
+        xs = rest(materialize(it, a)); return PyIter([[x, y] for x, y in zip(xs, _finite(it, bi, len(xs)))])
+    if fa is not None and fb is None:
+        ys = rest(materialize(it, bi)); return PyIter([[x, y] for x, y in zip(_finite(it, a, len(ys)), ys)])
+    return PyIter([[x, y] for x, y in zip(rest(materialize(it, a)), rest(materialize(it, bi)))])
+reg(_IT + r'zip::<.*>', m_zip)
 @model(r"<std::iter::Peekable<.*>>::peek|std::iter::Peekable::<.*>::peek")
 def m_peek(it, r):
     pi = it_of(r)
@@ -1266,3 +1317,6 @@ def m_rx_replace(it, callee, rxr, s, rep):
         if not all_: break
     out += text[pos:]
     return Adt(1, [SStr(out)])      # Cow::Owned
+
+# more std idioms (round 2)
+from . import models_extra  # noqa: E402,F401
